@@ -242,3 +242,34 @@ B('C10', 'transition processed before the action', (D, "            sent_events.
 B('C10', 'attach inserts at the front', (D, "        self._listeners.append(listener)", "        self._listeners.insert(0, listener)"))
 B('C10', 'property error swallowed by execute', (D, "        macro_step = self.execute_once()\n        while macro_step:", "        try:\n            macro_step = self.execute_once()\n        except Exception:\n            macro_step = None\n        while macro_step:"))
 T('C10', 'named listener variable', (D, "            for listener in self._listeners:\n                listener(event)", "            for callback in self._listeners:\n                callback(event)"))
+
+# ---------------------------------------------------------------- C13
+B('C13', 'second time sample inside the step', (D, "        # Compute steps\n        computed_steps = self._compute_steps()\n", "        computed_steps = self._compute_steps()\n        self._time = self.clock.time\n"))
+B('C13', 'evaluator reads clock.time', (PY, "        exposed_context = {\n            'active': lambda s: s in self._interpreter.configuration,\n            'time': self._interpreter.time,", "        exposed_context = {\n            'active': lambda s: s in self._interpreter.configuration,\n            'time': self._interpreter.clock.time,"))
+B('C13', 'after reads _idle_time', (PY, "            'after': (\n                lambda seconds: self._interpreter.time - seconds\n                >= self._interpreter._entry_time[transition.source]\n            ),", "            'after': (\n                lambda seconds: self._interpreter.time - seconds\n                >= self._interpreter._idle_time[transition.source]\n            ),"))
+B('C13', 'strict comparison in idle', (PY, "            'idle': (\n                lambda seconds: self._interpreter.time - seconds\n                >= self._interpreter._idle_time[transition.source]\n            ),", "            'idle': (\n                lambda seconds: self._interpreter.time - seconds\n                > self._interpreter._idle_time[transition.source]\n            ),"))
+B('C13', 'idle stamp only for external transitions', (D, "            # Update idle time\n            self._idle_time[step.transition.source] = self.time", "            # Update idle time\n            if step.transition.target is not None:\n                self._idle_time[step.transition.source] = self.time"))
+B('C13', 'entry stamp dropped', (D, "            self._entry_time[state.name] = self.time\n", ""))
+B('C13', 'MacroStep time from the clock', (D, "macro_step = MacroStep(time=self.time, steps=executed_steps)", "macro_step = MacroStep(time=self.clock.time, steps=executed_steps)"))
+B('C13', 'after keyed by the target', (PY, "            'after': (\n                lambda seconds: self._interpreter.time - seconds\n                >= self._interpreter._entry_time[transition.source]\n            ),", "            'after': (\n                lambda seconds: self._interpreter.time - seconds\n                >= self._interpreter._entry_time[transition.target]\n            ),"))
+B('C13', 'sample after step started', (D, "        self._time = self.clock.time\n\n        # Reset the list of events that were sent\n        self._sent_events.clear()\n\n        # Notify listeners\n        self._raise_event(MetaEvent('step started', time=self.time))", "        self._sent_events.clear()\n        self._raise_event(MetaEvent('step started', time=self.time))\n        self._time = self.clock.time"))
+B('C13', 'idle stamp before the action', (D, "            sent_events.extend(self._evaluator.execute_action(step.transition, step.event))\n\n            # Postconditions and invariants", "            self._idle_time[step.transition.source] = self.time\n            sent_events.extend(self._evaluator.execute_action(step.transition, step.event))\n\n            # Postconditions and invariants"), (D, "            # Update idle time\n            self._idle_time[step.transition.source] = self.time\n", ""))
+B('C13', 'preconditions see after()', (PY, "            'received': lambda name: name == getattr(event, 'name', None),\n            'sent': lambda name: name in [e.name for e in self._interpreter._sent_events],\n            'event': event,\n        }", "            'received': lambda name: name == getattr(event, 'name', None),\n            'sent': lambda name: name in [e.name for e in self._interpreter._sent_events],\n            'event': event,\n            'after': lambda seconds: True,\n        }"))
+B('C13', 'time added instead of subtracted', (PY, "            'after': (\n                lambda seconds: self._interpreter.time - seconds\n                >= self._interpreter._entry_time[transition.source]\n            ),", "            'after': (\n                lambda seconds: self._interpreter.time + seconds\n                >= self._interpreter._entry_time[transition.source]\n            ),"))
+B('C13', 'entry stamp with the clock', (D, "            self._entry_time[state.name] = self.time\n", "            self._entry_time[state.name] = self.clock.time\n"))
+T('C13', 'rearranged predicate', (PY, "            'after': (\n                lambda seconds: self._interpreter.time - seconds\n                >= self._interpreter._entry_time[transition.source]\n            ),", "            'after': (\n                lambda seconds: self._interpreter.time - self._interpreter._entry_time[transition.source] >= seconds\n            ),"))
+T('C13', 'flipped predicate', (PY, "            'idle': (\n                lambda seconds: self._interpreter.time - seconds\n                >= self._interpreter._idle_time[transition.source]\n            ),", "            'idle': (\n                lambda seconds: self._interpreter._idle_time[transition.source] + seconds <= self._interpreter.time\n            ),"))
+
+# ---------------------------------------------------------------- C15
+B('C15', 'forwarding every meta-event', (LI, "        if event.name == 'event sent':\n            self._callable(", "        if hasattr(event, 'event'):\n            self._callable("))
+B('C15', 're-creating an InternalEvent', (LI, "self._callable(Event(event.event.name, **event.event.data))", "self._callable(type(event.event)(event.event.name, **event.event.data))"))
+B('C15', 'dropping **data', (LI, "self._callable(Event(event.event.name, **event.event.data))", "self._callable(Event(event.event.name))"))
+B('C15', 'bind without attach', (D, "        self.attach(listener)\n\n        return listener\n\n    def bind_property_statechart", "        return listener\n\n    def bind_property_statechart"))
+B('C15', 'event sent for meta-events', (D, "        elif isinstance(event, MetaEvent):\n            for listener in self._listeners:", "        elif isinstance(event, MetaEvent):\n            if not event.name.startswith('s'):\n                self._raise_event(MetaEvent('event sent', event=event))\n            for listener in self._listeners:"))
+B('C15', 'sender not queueing for itself', (D, "        if isinstance(event, InternalEvent):\n            self._queue_event(event)\n", "        if isinstance(event, InternalEvent):\n"))
+B('C15', 'forwarding the original object', (LI, "self._callable(Event(event.event.name, **event.event.data))", "self._callable(event.event)"))
+B('C15', 'bind wraps execute instead of queue', (D, "listener = InternalEventListener(interpreter_or_callable.queue)", "listener = InternalEventListener(interpreter_or_callable._queue_event)"))
+B('C15', 'forwarded twice', (LI, "            self._callable(Event(event.event.name, **event.event.data))", "            self._callable(Event(event.event.name, **event.event.data))\n            self._callable(Event(event.event.name, **event.event.data))"))
+B('C15', 'also forwards consumed events', (LI, "        if event.name == 'event sent':", "        if event.name in ('event sent', 'event consumed'):"))
+B('C15', 'queue drops all but the first event', (D, "            event = Event(event, **parameters) if isinstance(event, str) else event\n            self._queue_event(event)", "            event = Event(event, **parameters) if isinstance(event, str) else event\n            self._queue_event(event)\n            break"))
+T('C15', 'flipped equality', (LI, "        if event.name == 'event sent':", "        if 'event sent' == event.name:"))
